@@ -511,6 +511,23 @@ def svh_cases(draw, tier):
             edges[g]["w"] = draw(st.sampled_from([2, 3]))
         return {"kind": "range", "labels": labels, "weighted": True, "edges": edges,
                 "max_order": s_, "mp": False, "planted": False, "sparse_large": True}
+    if draw(st.integers(0, 11)) == 0:
+        # dense class of large heavy hyperedges: three overlapping groups of size s whose
+        # nodes occur tens to hundreds of times, so that the product of the occurrence counts
+        # prod K_i exceeds 2**63 (an integer product must not wrap around) while K_i/N stays
+        # an ordinary number; two light peripheral hyperedges of the same size
+        s_ = draw(st.sampled_from([8, 10, 10]))
+        half = s_ // 2
+        lo = 240 if s_ == 8 else 60
+        ws = [draw(st.integers(lo, lo + 80)) for _ in range(3)]
+        groups = [list(range(g * half, g * half + s_)) for g in range(3)]
+        top = 4 * half
+        edges = [{"ns": g, "w": w} for g, w in zip(groups, ws)]
+        edges.append({"ns": list(range(top, top + s_)), "w": draw(st.integers(1, 3))})
+        edges.append({"ns": list(range(top + s_, top + 2 * s_)), "w": draw(st.integers(1, 3))})
+        return {"kind": "range", "labels": list(range(top + 2 * s_)), "weighted": True,
+                "edges": edges, "max_order": s_ + draw(st.integers(0, 1)), "mp": False,
+                "planted": False, "dense_large": True}
     U = draw(universes(min_size=4, max_size=8, kinds=("ints", "strs", "range")))
     labels = U["labels"]
     n = len(labels)
@@ -664,6 +681,10 @@ def classify_svh(case, ref, ctx):
               "max_order=%d" % case["max_order"], "mp=%s" % case["mp"],
               "planted" if case.get("planted") else "free")
     sizes = {len(e["ns"]) for e in case["edges"]}
+    if case.get("dense_large"):
+        ctx.label("dense_large (product of occurrence counts above 2**63)")
+    if case.get("sparse_large"):
+        ctx.label("sparse_large")
     if 1 in sizes:
         ctx.label("has_singleton")
     if any(s > case["max_order"] for s in sizes):
